@@ -21,6 +21,7 @@ type fileGen struct {
 	density float64
 	maxList int
 	odd     bool // also values outside C06's domain: invalid UTF-8, over-long strings and arrays
+	long    bool // over-long (but valid) strings and arrays only
 }
 
 func (g *fileGen) randUint(w int) uint64 {
@@ -92,6 +93,10 @@ func (g *fileGen) setField(fv reflect.Value, pf *PField) (skipped bool) {
 	}
 	switch fv.Kind() {
 	case reflect.String:
+		if g.long && g.rng.Intn(2) == 0 {
+			fv.SetString(g.randString(pf.L + 10))
+			return
+		}
 		if g.odd && g.rng.Intn(3) == 0 {
 			switch g.rng.Intn(3) {
 			case 0:
@@ -112,7 +117,7 @@ func (g *fileGen) setField(fv reflect.Value, pf *PField) (skipped bool) {
 			return true
 		}
 		n := 1 + g.rng.Intn(pf.L)
-		if g.odd && g.rng.Intn(4) == 0 {
+		if (g.odd || g.long) && g.rng.Intn(4) == 0 {
 			n = pf.L + 1 + g.rng.Intn(3)
 		}
 		sl := reflect.MakeSlice(fv.Type(), n, n)
